@@ -103,7 +103,8 @@ Contexts == {"bare", "arg", "operand", "listelt", "genelt", "geniter", "gencond"
              "add_list", "mult", "bitor",       \* the value is the LEFT operand of an operator (must never be modified in place)
              "helper_strings", "helper_fields", \* the value is handed to a whitelisted helper as its list of strings / of field names
              "primed",                          \* genuine whitelisted calls of the same names were made earlier in the same expression
-             "fields_arg", "fields_kwarg"}      \* the value is handed to the selector helper fields() as the type to look up
+             "fields_arg", "fields_kwarg",      \* the value is handed to the selector helper fields() as the type to look up
+             "helper_unknown_kwarg", "helper_extra_positional"}   \* the value is handed to a helper as a parameter it does not document
 VARIABLES t, g, ctx
 Init == t \in Targets /\ g \in InGen /\ ctx \in Contexts
 Next == UNCHANGED <<t, g, ctx>>
